@@ -45,6 +45,7 @@ func (op *CreateOperation) Apply(snapshot *Snapshot) {
 		combinedId: entity.CombineIds(snapshot.id, opId),
 		targetId:   opId,
 		Message:    op.Message,
+		Files:      op.Files,
 		Author:     op.Author(),
 		unixTime:   timestamp.Timestamp(op.UnixTime),
 	}
